@@ -353,6 +353,9 @@ fn run(ctx: &RunCtx) {
             Err(f) => CaseResult::Fail(f),
         }
     });
+    // a comment next to the `...` of a type pack is dropped together with its line break (known finding
+    // of C03): the rest of the line then becomes part of the comment
+    let avoid_ellipsis = ctx.avoid("pack-ellipsis-trivia");
     let opts = CfgOpts { max_rules: 6, allow_filters: true, allow_bundle: false, allow_convert_require: true };
     let n2 = ctx.tier.pick(40_000, 1_500_000);
     ctx.search("pipelines", n2, 700, |tape, st| {
@@ -364,6 +367,9 @@ fn run(ctx: &RunCtx) {
             config["generator"] = json!({"name": if t.bool(128) { "dense" } else { "readable" }, "column_span": *t.pick(&[0usize, 1, 2, 3, 10, 80])});
         }
         let config = config.to_string();
+        if avoid_ellipsis && crate::props::c03::has_comment_next_to_type_ellipsis(&source) {
+            return CaseResult::Discard("avoided: known finding pack-ellipsis-trivia");
+        }
         st.sample(|| json!({"source": source, "config": config}));
         let rules = config.matches("\"rule\"").count() + config.matches("\",\"").count();
         match check_pipeline(&source, &config) {
